@@ -44,7 +44,6 @@ def match_templates(k, k2):
         (f'contains("{k}")', None),
         (f'regex("{k}\\d")', f'regex("{k}\\D")'),
         (f'regex("{k}\\s")', f'regex("{k}\\S")'),
-        (f'regex("{k}\\b")', f'regex("{k}\\B")'),
         (f'contains("{k}") and amount > 100', None),
         (f'source == "AMEX" and contains("{k}")', f'source == "amex" and contains("{k}")'),
         (f'startswith("{k}")', None),
@@ -380,7 +379,7 @@ def shrink(uni, hist, pos, sig, pool, budget=40):
 
 
 # ---- model side ---------------------------------------------------------------------------------------
-HEADER = r'''From Coq Require Import String List Bool Arith.
+HEADER = r'''From Coq Require Import String List Bool Arith NArith.
 From Tally Require Import C07.Model.
 Import ListNotations.
 Open Scope string_scope.
@@ -580,7 +579,7 @@ def model_check(unis, all_hists, all_results, freshes, fx, pool, name='C07'):
             m = re.search(r'=\s*\[(.*)\]\s*:\s*list \(nat \* list nat\)', out, re.S)
             if rc != 0 or not m:
                 return None, n, (out + err)[-1500:]
-            for um in re.finditer(r'\((\d+)(?:%nat)?,\s*\[([^\]]*)\]\)', m.group(1)):
+            for um in re.finditer(r'\(\s*(\d+)(?:%nat)?,\s*\[([^\]]*)\]\)', m.group(1)):
                 ui = int(um.group(1))
                 n += len(all_hists[ui])
                 for x in um.group(2).replace('%nat', '').split(';'):
@@ -635,6 +634,8 @@ def main(tier):
 
     pool = ThreadPoolExecutor(PAR)
     freshes = [Fresh(u) for u in unis]
+    phases = {'proofs_s': round(time.time() - run.t0, 1)}
+    t1 = time.time()
     all_results = []
     failing = {}          # signature -> list of (ui, hi, pos)
     n_cmp = 0
@@ -655,6 +656,8 @@ def main(tier):
             for pos, sig in check_history(u, h, r, fr):
                 failing.setdefault(sig, []).append((ui, hi, pos))
 
+    phases['oracle_s'] = round(time.time() - t1, 1)
+    t1 = time.time()
     # determinism of the reference itself: a sample of fresh results re-run
     det_bad = 0
     for ui in range(min(3, len(unis))):
@@ -670,6 +673,7 @@ def main(tier):
     key_bad = []
     for ui, (u, hs) in enumerate(zip(unis, all_hists)):
         texts = [f['text'] for f in u['files'].values()] + u['exprs'] + u['filter_exprs']
+        texts += [t.replace('""', '"') for t in texts]      # CSV quoting of a pattern cell
         for h, r in zip(hs, all_results[ui]):
             for x in r:
                 for k in x['ek'] + x['rk']:
@@ -693,6 +697,8 @@ def main(tier):
             'obligation': 'c07_history_independent / c07_classify_frame on the implementation',
             'n_failing_comparisons': len(where), 'shrunk_from': pos + 1, 'broken': broken}, signature=sig)
 
+    phases['shrink_s'] = round(time.time() - t1, 1)
+    t1 = time.time()
     model_n = 0
     if res['ok']:
         bad, model_n, err = model_check(unis, all_hists, all_results, freshes, fx, pool)
@@ -704,6 +710,7 @@ def main(tier):
             broken.append({'kind': 'broken-correspondence', 'obligation': 'model_vs_impl(C07.Model.step, in-process history)',
                            'detail': {'universe': unis[ui], 'history': all_hists[ui][hi], 'implementation': all_results[ui][hi],
                                       'n': len(bad), 'model_variant_fixed': fx}})
+    phases['model_s'] = round(time.time() - t1, 1)
     unknown_fail = [s for s in failing if s != KNOWN_SIG or not any(f.get('signature') == KNOWN_SIG for f in run.findings)]
     if broken and not unknown_fail:
         b = broken[0]
@@ -735,7 +742,7 @@ def main(tier):
         'fresh_interpreters_spawned': spawned, 'history_length_histogram': hist_len, 'loads_per_history_histogram': nloads,
         'model_vs_impl_histories_in_coq': model_n, 'model_variant': 'fixed (reset at entry)' if fx else 'unfixed (as /repo)',
         'failing_signatures': {k: len(v) for k, v in failing.items()}, 'translation_failures': tfails,
-        'discards': discards,
+        'discards': discards, 'phase_seconds': phases,
         'claimed_for_this_tree': (['c07_history_independent_fixed', 'c07_history_independent_of_source'] if fx else
                                   ['c07_history_independent_refuted', 'c07_history_independent_partial']) +
         ['c07_expr_cache_transparent', 'c07_regex_cache_transparent', 'c07_cache_invariant', 'c07_classify_frame']})
